@@ -65,6 +65,10 @@ claim("C18", "lockset (must-flow of eventLock over read/write/commit/publish), e
       "Decides C18.1 (both CAS writers hold eventLock from the read to the publication, publish after Commit, and write only below version-equal and UID-equal edges; create only with empty version), C18.2 (only they and the restoration handle write the table), C18.3 (no nil error below an err != nil edge — four such sites were repaired), C18.4 (WatchList's topic has a registered snapshot handler that lists under a read transaction; restore refreshes the topic). Linearizability under real schedules is not decided.",
       "DESIGN.md section 3 C18")
 
+claim("C16", "edge-cut guard of every bookkeeping effect by the accepted edges of the catalog RPC result (success, ACL refusal, unknown-service on deletes); must-push rule on entries marked Deleted; provenance of in-sync assignments in the diff; lockset at push call sites; constant-result rule on the syncer's failure edge",
+      "Decides C16.1 (5 push functions: in-sync flags set / entries dropped only below success or ACL-refusal edges, other errors returned), C16.2 (local removal marks Deleted and keeps the entry; every Deleted entry is pushed at every sync), C16.3 (the diff only clears flags or takes them from IsSame), C16.4 (push functions run under the state lock), C16.5 (a failed full sync goes to the retry state). Convergence over fault sequences is not decided.",
+      "DESIGN.md section 3 C16")
+
 NA_REASON = {}
 
 checks = []
